@@ -117,6 +117,9 @@ func ruleC03(w *World, r *Report) {
 	// "processed at most once" across an export/import: commitments, acks and send sequences
 	// are restored under the keys they were exported from (shared with C16)
 	k.genesisFieldRule("C03.genesis")
+	// an acknowledgement (also the relay chain's error acknowledgement) is written only after the
+	// keeper verified the packet (shared with C01)
+	k.msgRecvRule("C03.recv")
 	r.MinInstances("C03.", 50)
 }
 
